@@ -6,6 +6,7 @@
 -/
 import VsgModel.Engine.RuleRun
 import VsgModel.Engine.Relations
+import VsgProofs.Lemmas.SortByStart
 import VsgProofs.Lemmas.BaseWsFull
 import VsgProofs.Lemmas.BaseWsEffects
 namespace Vsgm.C10
@@ -19,8 +20,9 @@ theorem second_fix_identity (r : RuleCfg) (sem : RuleSem) (fo : Option FixOnly) 
     (h : filterFixOnly fo r.id (sem.analyze (ruleFix r sem fo f).1) = []) :
     ruleFix r sem fo (ruleFix r sem fo f).1 = ((ruleFix r sem fo f).1, false) := by
   generalize hg : (ruleFix r sem fo f).1 = g at h ⊢
+  have h' := (Lemmas.filterFixOnly_sort_nil fo r.id (sem.analyze g)).mpr h
   by_cases hf : r.fixable = true
-  · simp [ruleFix, hf, h, update]
+  · simp [ruleFix, hf, h', update]
   · have : r.fixable = false := by simpa using hf
     simp [ruleFix, this]
 
@@ -35,8 +37,8 @@ theorem unrepairable_noop (f : List Tok) (es : List (Edit Tok)) (h : Chain f.len
     unrepairable in this sense -/
 theorem second_fix_identity_of_unrepairable (r : RuleCfg) (sem : RuleSem) (fo : Option FixOnly) (f : List Tok)
     (g : List Tok) (_hg : g = (ruleFix r sem fo f).1)
-    (hc : Chain g.length 0 ((filterFixOnly fo r.id (sem.analyze g)).map (editOf sem)))
-    (hu : ∀ v ∈ filterFixOnly fo r.id (sem.analyze g), (editOf sem v).new = old g (editOf sem v)) :
+    (hc : Chain g.length 0 ((filterFixOnly fo r.id (sortByStart (sem.analyze g))).map (editOf sem)))
+    (hu : ∀ v ∈ filterFixOnly fo r.id (sortByStart (sem.analyze g)), (editOf sem v).new = old g (editOf sem v)) :
     (ruleFix r sem fo g).1 = g := by
   by_cases hf : r.fixable = true
   · simp only [ruleFix, hf, if_true]
